@@ -7,6 +7,6 @@ mkdir -p "$D"
 rsync -a --exclude .git --exclude doc --exclude tests --exclude examples /repo/ "$D/"
 ( cd "$D" && patch -p1 -s < "$PATCH" )
 set +e
-SF_REPO="$D" VERIF_NO_GATE=${VERIF_NO_GATE-1} /verif/check "$@" ; rc=$?
+SF_REPO="$D" VERIF_OUT_DIR="$D/.verif_out" VERIF_NO_GATE=${VERIF_NO_GATE-1} /verif/check "$@" ; rc=$?
 rm -rf "$D"
 exit $rc
